@@ -66,6 +66,12 @@ impl Run {
             violations: vec![],
             violating_cases: 0,
         }
+        .with_watchdog()
+    }
+
+    fn with_watchdog(self) -> Self {
+        watchdog::start(&self.property, self.tier, self.level);
+        self
     }
 
     pub fn cov(&mut self, key: &str, v: impl Into<Value>) {
@@ -289,4 +295,120 @@ pub fn n_threads() -> usize {
         .map(|n| n.get())
         .unwrap_or(4)
         .min(16)
+}
+
+
+/// Wall-clock watchdog over single executions. Every harness loop is bounded (horizons, poll
+/// budgets), so an execution that does not come back can only be library code that does not return
+/// from one poll (a busy loop) — which a cooperative, single-threaded explorer cannot interrupt
+/// from the inside. Engines announce each execution with `enter` (a closure that can describe the
+/// case as a replay artefact); a monitor thread reports the first execution that exceeds the limit
+/// as a violation (liveness: the task never finishes), writes a minimal evidence file and exits 1.
+pub mod watchdog {
+    use super::*;
+    use std::sync::atomic::{AtomicUsize, Ordering};
+    use std::sync::{Mutex, OnceLock};
+
+    type Describe = Box<dyn Fn() -> Value + Send>;
+    struct Slot {
+        since: Option<Instant>,
+        describe: Option<Describe>,
+    }
+    const NSLOTS: usize = 128;
+    static SLOTS: OnceLock<Vec<Mutex<Slot>>> = OnceLock::new();
+    static NEXT: AtomicUsize = AtomicUsize::new(0);
+    thread_local! {
+        static MY: usize = NEXT.fetch_add(1, Ordering::Relaxed) % NSLOTS;
+    }
+
+    fn slots() -> &'static Vec<Mutex<Slot>> {
+        SLOTS.get_or_init(|| (0..NSLOTS).map(|_| Mutex::new(Slot { since: None, describe: None })).collect())
+    }
+
+    thread_local! {
+        static CONTEXT: std::cell::RefCell<Value> = std::cell::RefCell::new(Value::Null);
+    }
+    /// Engine-specific description of what this thread is exploring (scenario, fault, ...); the
+    /// schedule explorer adds the schedule prefix to it for every execution.
+    pub fn set_context(v: Value) {
+        CONTEXT.with(|c| *c.borrow_mut() = v);
+    }
+    pub fn context() -> Value {
+        CONTEXT.with(|c| c.borrow().clone())
+    }
+
+    pub fn limit_s() -> f64 {
+        std::env::var("HDMC_WATCHDOG_S").ok().and_then(|s| s.parse().ok()).unwrap_or(60.0)
+    }
+
+    pub struct Guard(usize);
+    impl Drop for Guard {
+        fn drop(&mut self) {
+            let mut s = slots()[self.0].lock().unwrap();
+            s.since = None;
+            s.describe = None;
+        }
+    }
+
+    /// Announce one execution on this thread; the guard ends it.
+    pub fn enter(describe: impl Fn() -> Value + Send + 'static) -> Guard {
+        let i = MY.with(|m| *m);
+        let mut s = slots()[i].lock().unwrap();
+        s.since = Some(Instant::now());
+        s.describe = Some(Box::new(describe));
+        Guard(i)
+    }
+
+    /// The execution announced on this thread made progress (a long-lived `enter` covering many cases).
+    pub fn touch() {
+        let i = MY.with(|m| *m);
+        let mut s = slots()[i].lock().unwrap();
+        if s.since.is_some() {
+            s.since = Some(Instant::now());
+        }
+    }
+
+    pub fn start(property: &str, tier: Tier, level: &'static str) {
+        static STARTED: OnceLock<()> = OnceLock::new();
+        if STARTED.set(()).is_err() {
+            return;
+        }
+        let property = property.to_string();
+        let limit = limit_s();
+        let _ = std::thread::Builder::new().name("watchdog".into()).spawn(move || loop {
+            std::thread::sleep(std::time::Duration::from_millis(500));
+            for slot in slots() {
+                let fired = {
+                    let s = slot.lock().unwrap();
+                    match (&s.since, &s.describe) {
+                        (Some(t), Some(d)) if t.elapsed().as_secs_f64() > limit => Some((t.elapsed().as_secs_f64(), d())),
+                        _ => None,
+                    }
+                };
+                if let Some((secs, case)) = fired {
+                    let sig = format!("watchdog no-return engine={}", case.get("engine").and_then(|x| x.as_str()).unwrap_or("?"));
+                    let v = Violation {
+                        signature: sig.clone(),
+                        what: format!("one execution did not finish within {secs:.0}s of wall time although every harness loop is bounded: library code did not return from a poll (busy loop) — the task never finishes; case {case}"),
+                        replay: case.clone(),
+                    };
+                    let path = write_replay(&property, &v);
+                    let ev = json!({
+                        "property_id": property, "tier": tier.as_str(), "seed": 0, "level": level,
+                        "coverage": {"evaluations": 0, "distinct_nontrivial": 0, "exhaustive": false, "rule": "run aborted by the execution watchdog; counts were not collected", "samples": [case], "states": 0, "transitions": 0},
+                        "assumptions": [], "wall_s": secs, "violations": 1,
+                    });
+                    let dir = out_root().join("evidence");
+                    let _ = std::fs::create_dir_all(&dir);
+                    let _ = std::fs::write(dir.join(format!("{property}.json")), serde_json::to_string_pretty(&ev).unwrap() + "\n");
+                    eprintln!("  what: {}\n  signature: {}", v.what, sig);
+                    println!("VIOLATION property={} replay={}", property, path.display());
+                    println!("FAIL {} tier={} (execution watchdog)", property, tier.as_str());
+                    use std::io::Write;
+                    let _ = std::io::stdout().flush();
+                    std::process::exit(1);
+                }
+            }
+        });
+    }
 }
